@@ -769,5 +769,83 @@ def file_wrapper(ctx):
     return res
 
 
-RULES = [s1_keys, s2_roundtrip, s3_plain, s4_arity, s5_none, s6_optic,
+def fresh_load(ctx):
+    """from_dict builds a new object from the given dictionary alone: no
+    memo of earlier loads (class-level or module-level containers), so the
+    result cannot depend on which dictionaries were loaded before."""
+    P = ctx.P
+    res = Result('FRESH-LOAD', 'every from_dict / to_dict is a function of '
+                 'its argument: no class-level or module-level container is '
+                 'written or consulted (only the subclass registry is read)')
+    n = 0
+    seen = set()
+    for cn in _pairs(P):
+        for nm in ('from_dict', 'to_dict'):
+            f = P.lookup(cn, nm)
+            if f is None or f.qual in seen:
+                continue
+            seen.add(f.qual)
+            res.saw(f)
+            n += 1
+            bad = None
+            glob = {g for st in ast.walk(f.node) if isinstance(st, ast.Global)
+                    for g in st.names}
+            for x in ast.walk(f.node):
+                if isinstance(x, ast.Subscript) and isinstance(
+                        x.value, ast.Attribute) and isinstance(
+                        x.value.value, ast.Name) and (
+                        x.value.value.id == 'cls' or
+                        x.value.value.id in P.classes) and \
+                        x.value.attr != '_registry':
+                    bad = (x, f'{x.value.value.id}.{x.value.attr}[...]')
+                elif isinstance(x, ast.Call) and isinstance(
+                        x.func, ast.Attribute) and x.func.attr in (
+                        'append', 'setdefault', 'update', 'add', 'get',
+                        'pop') and isinstance(x.func.value, ast.Attribute) \
+                        and isinstance(x.func.value.value, ast.Name) and (
+                        x.func.value.value.id == 'cls' or
+                        x.func.value.value.id in P.classes) and \
+                        x.func.value.attr != '_registry':
+                    bad = (x, unparse(x.func))
+                elif isinstance(x, ast.Attribute) and isinstance(
+                        x.ctx, ast.Store) and isinstance(x.value, ast.Name) \
+                        and (x.value.id == 'cls' or x.value.id in P.classes):
+                    bad = (x, unparse(x))
+                elif isinstance(x, ast.Name) and x.id in glob:
+                    bad = (x, 'global ' + x.id)
+                if bad:
+                    break
+            # module-level mutable containers consulted by name
+            if not bad:
+                mod = P.modules.get(f.module) if hasattr(P, 'modules') else None
+                mvars = set()
+                if mod is not None:
+                    for st in mod.body:
+                        if isinstance(st, ast.Assign) and isinstance(
+                                st.value, (ast.Dict, ast.List, ast.Set)) and \
+                                not (st.value.keys if isinstance(
+                                    st.value, ast.Dict) else st.value.elts):
+                            for t in st.targets:
+                                if isinstance(t, ast.Name):
+                                    mvars.add(t.id)
+                for x in ast.walk(f.node):
+                    if isinstance(x, ast.Name) and x.id in mvars:
+                        bad = (x, 'module-level container ' + x.id)
+                        break
+            if bad:
+                res.fail(ctx.finding(
+                    'FRESH-LOAD', f, bad[0],
+                    f'{f.qual} consults or fills {bad[1]}: the object '
+                    f'returned depends on earlier loads, not only on the '
+                    f'dictionary given',
+                    construct=f'{f.qual}: shared state'))
+            else:
+                res.ok(f'{f.qual}: no shared state')
+    res.min_instances = 20
+    if n < 20:
+        raise AnalysisError(f'FRESH-LOAD: only {n} functions analysed')
+    return res
+
+
+RULES = [fresh_load, s1_keys, s2_roundtrip, s3_plain, s4_arity, s5_none, s6_optic,
          s7_kwargs, plain_store, file_wrapper]
